@@ -4,8 +4,10 @@ C08 — executable model of `/repo/hostsfile/parse.go` (`Parse`) and
 RangeNames / RangeAddrs / Equal`).
 
 * `bufio.Scanner` + `bufio.ScanLines` is the function `scanLines` on the whole byte stream
-  (contract SCAN-1: the real scanner yields exactly these tokens however the reader
-  fragments the stream, for lines < 64 KiB and fewer than 100 consecutive empty reads).
+  (formerly contract SCAN-1, now theorem `scan_fragmentation_independent` over the model of
+  `Scanner.Scan` in `Go/Scanner.lean`: the scanner yields exactly these tokens however the
+  reader fragments the stream, for lines < 64 KiB and at most 100 consecutive empty reads;
+  `Model/C08Scan.lean` runs `Parse` on that scanner).
 * `Parse` is the fold the code performs over the tokens: 1-based `lineNum`, a fresh
   `&Record{Source: srcName}` per line, `UnmarshalText` (the C07 model), dispatch to
   `dst.Add` or to `handleInvalid` (the `HandleSet` method, or the closure that appends to
